@@ -76,6 +76,8 @@ def finalize(sink, tier, seed):
         sink.require(f'zero-size-leaves:{b}')
         sink.require(f'rejections:shape:{b}')
         sink.require(f'rejections:dtype:{b}')
+        for vname in ('offset-slice', 'strided', 'batch-row'):
+            sink.require(f'vector-view:{b}:{vname}', 50)
         if b != 'jax':
             sink.require(f'leaf-layout:{b}:strided', 20)
             sink.require(f'leaf-layout:{b}:permuted', 5)
